@@ -127,7 +127,7 @@ func cmdCheck(args []string) int {
 	seed, _ := strconv.ParseInt(envOr("VERIF_SEED", "0"), 10, 64)
 	t0 := time.Now()
 	cfg := &Config{Repo: *repo, HarnessDir: *hdir, Prop: id, Tier: *tier, Seed: seed, Workers: *workers,
-		EnumCap: 64, MaxSteps: 5000000, MaxPaths: *maxPaths, SampleCap: 48, Solver: *solver, Only: *only, Verbose: *verbose}
+		EnumCap: 64, ViolCap: 4, MaxSteps: 5000000, MaxPaths: *maxPaths, SampleCap: 48, Solver: *solver, Only: *only, Verbose: *verbose}
 	if *tier == "thorough" {
 		cfg.SampleCap = 128
 	}
@@ -209,10 +209,15 @@ func cmdCheck(args []string) int {
 	var pending []pend
 	for _, k := range keys {
 		vs := byKey[k]
-		for i, v := range vs {
-			if i >= 3 {
+		taken := 0
+		for _, v := range vs {
+			if taken >= 3 {
 				break
 			}
+			if v.NoModel {
+				continue
+			}
+			taken++
 			c := v.Case
 			c.ID = len(cases)
 			cases = append(cases, c)
